@@ -224,7 +224,8 @@ def run(chk, prog):
             if rss_k and c.wrap == 'sqrt' and c.term.same(Rat(A(rss_k[0])) / Rat(A('$1->row'))):
                 good['sdec'] = c
             detail['sdec'] = '%s(%r) with sums %s' % (c.wrap, c.term, {k_: [repr(x[0]) for x in sums.get(k_, [])] for k_ in keys})
-    for key, text in (('r2', 'R2_j = 1 - sum_i (Y - P)^2 / sum_i (Y - mean_j)^2'), ('sdec', 'SDEC_j = sqrt(sum_i (Y - P)^2 / rows)')):
+    for key, text in (('r2', 'R2_j = 1 - sum_i (Y - P)^2 / sum_i (Y - mean_j)^2, both sums accumulated term by term in that centred form (a one-pass '
+                              'sum y^2 - n mean^2 cancels for large offsets and lets R2 leave [0,1])'), ('sdec', 'SDEC_j = sqrt(sum_i (Y - P)^2 / rows)')):
         if good[key]:
             chk.instance(R_s, '%s MLRPredictY: %s' % (g.unit.where(good[key].node), text))
         else:
